@@ -4,7 +4,8 @@ import t2t, impl, corr
 
 OBLIGATIONS = ['Yalafi.C06_longest_match', 'Yalafi.C06_no_match', 'Yalafi.C06_scan_text_char', 'Yalafi.C06_tables_documented',
                'Yalafi.C06_plain_fixed_point', 'Yalafi.C06_plain_fixed_point_text',
-               'Yalafi.C06_specials_follow_table', 'Yalafi.C06_specials_tables_current']
+               'Yalafi.C06_specials_follow_table', 'Yalafi.C06_specials_tables_current',
+               'Yalafi.C06_plain_fixed_point_current', 'Yalafi.C06_inert_ascii_current', 'Yalafi.C06_specials_follow_table_current', 'Yalafi.C06_specials_example_current']
 
 # the documented table of the property statement (README), independent of the code
 DOCUMENTED = {'--': '–', '---': '—', '``': '“', "''": '”', '~': ' ', '\\,': ' ',
